@@ -1,5 +1,6 @@
 import Ivg.Lemmas.GradQ
 import Ivg.Lemmas.RenderHistQ
+import Ivg.Lemmas.Grad64e
 import Ivg.Gen.Tie.GradientFields
 import Ivg.Gen.Tie.RendererFields
 import Ivg.Obligations
@@ -21,6 +22,10 @@ All theorems are about the model instantiated at EXACT arithmetic (`ℚ` for bot
 the float64 square root of the radial shape is a parameter (`[SqrtQ]`) and stays symbolic:
 `GradQ.rawOffset g x y` is `m.a·px + m.b·py + m.c` for the linear shape and
 `Wide.sqrt (gx² + gy²)` for the radial shape, with `(px, py) = (x + ½, y + ½)` the pixel centre.
+
+The LAST section ("float64") is about the same model functions instantiated at the soft floats `(F32, F64)`
+— the instance that is bit-exact with Go — and proves the part of the property that is EXACT in floats
+(`Ivg/Lemmas/Grad64.lean` … `Grad64e.lean`).
 -/
 namespace Ivg.Props.C15
 open Ivg Grad Ren GradQ
@@ -274,15 +279,314 @@ example : (match (RenderHistQ.Ex.zAfter.startPath 0 0 0).1.fill with
      | .gradient g => decide (g.pix2Grad.a = 1 / 128 ∧ g.pix2Grad.c = 0)
      | _ => false) = true := RenderHistQ.Ex.gradient_path_matrix
 
+end Ivg.Props.C15
+
+/-! ## float64: the clauses that are exact in floating point
+
+Everything below is about `Gradient F64` with the arithmetic of `Ivg/Num/Soft.lean` (`Arith F64`,
+`Wide F32 F64`), i.e. about what the Go code computes bit for bit.  Vocabulary (`Ivg/Lemmas/Float*.lean`):
+`Fn a` — `a` is finite; `val a : ℚ` — its value; `Rnd v b` — the bit pattern `b` is the correct rounding
+(to nearest, ties to even) of the rational `v`; `a ≤ b`, `a < b`, `Arith.feq a b` — Go's `<=`, `<`, `==`.
+`Grad64.StopsOK stops`: every offset satisfies `0 <= off && off <= 1` (hence is finite), consecutive offsets
+satisfy `off_i < off_{i+1}` (float64 comparisons), channels are 16-bit.  `Grad64.premul c`: `R, G, B ≤ A`.
+`Grad64.offsetAt g x y = clamp g.spread (Grad64.rawOffset g x y)` is the offset `At` computes for the pixel. -/
+namespace Ivg.Props.C15
+open Ivg Grad Num
+open Ivg.Spec.Grad (Spread frac tri spreadOffset)
+
+/-- `At` is "offset, then colour": `Grad64.colorOf` is the part of `At` after the offset (test `offset >= 0`,
+    first colour, `findRange`, interpolation, last colour). -/
+theorem at_eq_f64 (g : Gradient F64) (x y : Int) : g.at (α := F32) x y = Grad64.colorOf g (Grad64.offsetAt g x y) :=
+  Grad64.at_eq g x y
+
+theorem offsetAt_eq_f64 (g : Gradient F64) (x y : Int) :
+    Grad64.offsetAt g x y = clamp (α := F32) g.spread (Grad64.rawOffset g x y) := rfl
+
+/-- the raw offset: the pixel centre through `pix2Grad`, every operation a float64 operation -/
+theorem rawOffset_eq_f64 (g : Gradient F64) (x y : Int) :
+    Grad64.rawOffset g x y =
+      (let px : F64 := F64.ofInt x + ⟨0x3fe0000000000000⟩
+       let py : F64 := F64.ofInt y + ⟨0x3fe0000000000000⟩
+       let m := g.pix2Grad
+       if g.shape = 0 then m.a * px + m.b * py + m.c
+       else F64.sqrt ((m.a * px + m.b * py + m.c) * (m.a * px + m.b * py + m.c) +
+                      (m.d * px + m.e * py + m.f) * (m.d * px + m.e * py + m.f))) := rfl
+
+/-- Clause "at a stop's offset the colour is that stop's colour", at float64, EXACTLY: if the offset of the
+    pixel `==` the offset of stop `k` (Go float equality), `At` returns stop `k`'s colour, all four channels
+    — for the first, an interior or the last stop, whichever range `findRange` selects (the one ending or
+    the one starting there), HOWEVER CLOSE the neighbouring stops are: `(x − off0)/width` is `a/a = 1` or
+    `0/a = 0` exactly, `s*c0 + t*c1` with `{s,t} = {0,1}` is exact, and so is `uint16` of an integer `≤ 65535`.
+    (A `width` raised to some minimum when two stops are closer than that would violate this.) -/
+theorem at_stop_f64 (shape spread : UInt8) (m : Aff3 F64) (s0 s1 : Stop F64) (rest : List (Stop F64))
+    (hok : Grad64.StopsOK (s0 :: s1 :: rest)) (x y : Int) (k : Nat) (hk : k < (s0 :: s1 :: rest).length)
+    (hx : Arith.feq (Grad64.offsetAt (Gradient.init shape spread m (s0 :: s1 :: rest)).1 x y)
+      (s0 :: s1 :: rest)[k].offset = true) :
+    (Gradient.init shape spread m (s0 :: s1 :: rest)).1.at (α := F32) x y = (s0 :: s1 :: rest)[k].color :=
+  Grad64.at_stop_f64 shape spread m s0 s1 rest hok x y k hk hx
+
+/-- … the same with the RAW offset (before `Clamp`): a stop's offset lies in `[0,1]`, where `Clamp` is the
+    identity for every spread mode. -/
+theorem at_stop_raw_f64 (shape spread : UInt8) (m : Aff3 F64) (s0 s1 : Stop F64) (rest : List (Stop F64))
+    (hok : Grad64.StopsOK (s0 :: s1 :: rest)) (x y : Int) (k : Nat) (hk : k < (s0 :: s1 :: rest).length)
+    (hx : Arith.feq (Grad64.rawOffset (Gradient.init shape spread m (s0 :: s1 :: rest)).1 x y)
+      (s0 :: s1 :: rest)[k].offset = true) :
+    (Gradient.init shape spread m (s0 :: s1 :: rest)).1.at (α := F32) x y = (s0 :: s1 :: rest)[k].color :=
+  Grad64.at_stop_raw_f64 shape spread m s0 s1 rest hok x y k hk hx
+
+-- non-vacuity, concrete bit patterns: three stops at 0.25, at the float32 `0x3e800001` widened (ONE float32
+-- step above 0.25: width `2^-25`) and at 1.0; the matrix maps every pixel to the offset `c`
+set_option maxRecDepth 100000 in
+example : F64.ofF32 ⟨0x3e800000⟩ = Grad64.Ex.sA.offset ∧ F64.ofF32 ⟨0x3e800001⟩ = Grad64.Ex.sB.offset := by
+  decide +kernel
+set_option maxRecDepth 100000 in
+example : Grad64.StopsOK [Grad64.Ex.sA, Grad64.Ex.sB, Grad64.Ex.sC] := by decide +kernel
+set_option maxRecDepth 100000 in
+example : Arith.feq (Grad64.offsetAt
+    (Gradient.init 0 0 (Grad64.Ex.mC Grad64.Ex.sB.offset) [Grad64.Ex.sA, Grad64.Ex.sB, Grad64.Ex.sC]).1 7 3)
+    [Grad64.Ex.sA, Grad64.Ex.sB, Grad64.Ex.sC][1].offset = true := by decide +kernel
+-- … evaluated exactly at the upper of the two close stops (range [A,B], t = 1), at the lower one (t = 0),
+-- at the last stop, and half a float32 step above A (a genuine interpolation)
+set_option maxRecDepth 100000 in
+example : (Gradient.init 0 0 (Grad64.Ex.mC Grad64.Ex.sB.offset) [Grad64.Ex.sA, Grad64.Ex.sB, Grad64.Ex.sC]).1.at
+    (α := F32) 7 3 = ⟨0xFFFF, 0x8000, 0x0001, 0xFFFF⟩ := by decide +kernel
+set_option maxRecDepth 100000 in
+example : (Gradient.init 0 0 (Grad64.Ex.mC Grad64.Ex.sA.offset) [Grad64.Ex.sA, Grad64.Ex.sB, Grad64.Ex.sC]).1.at
+    (α := F32) 7 3 = ⟨0x1111, 0x2222, 0x3333, 0x4444⟩ := by decide +kernel
+set_option maxRecDepth 100000 in
+example : (Gradient.init 0 3 (Grad64.Ex.mC Grad64.Ex.sC.offset) [Grad64.Ex.sA, Grad64.Ex.sB, Grad64.Ex.sC]).1.at
+    (α := F32) (-1000000000) 999999999 = ⟨0, 0, 0, 0⟩ := by decide +kernel
+set_option maxRecDepth 100000 in
+example : (Gradient.init 0 0 (Grad64.Ex.mC ⟨0x3FD0000010000000⟩) [Grad64.Ex.sA, Grad64.Ex.sB, Grad64.Ex.sC]).1.at
+    (α := F32) 7 3 = ⟨34952, 20753, 6554, 41505⟩ := by decide +kernel
+
+/-- Clause "returns a valid premultiplied colour", at float64, at EVERY pixel (no hypothesis on the offset:
+    NaN and infinite offsets give transparent black or an end colour): premultiplied stops give
+    `R, G, B ≤ A`.  Inside a range `0 ≤ t ≤ 1`, `0 ≤ s = rnd(1−t) ≤ 1` and `s + t ≤ 1 + 2^-53`, so each
+    `rnd(rnd(s*c0) + rnd(t*c1))` is below `65536` (no wrap-around in `uint16(…)`, see `at_inside_f64`); `+`
+    and `*` by non-negative factors are monotone after rounding, and so is truncation. -/
+theorem premul_valid_f64 (shape spread : UInt8) (m : Aff3 F64) (stops : List (Stop F64))
+    (hok : Grad64.StopsOK stops) (hp : ∀ s ∈ stops, Grad64.premul s.color) (x y : Int) :
+    Grad64.premul ((Gradient.init shape spread m stops).1.at (α := F32) x y) :=
+  Grad64.premul_valid_f64 shape spread m stops hok hp x y
+example : ∀ s ∈ [Grad64.Ex.sA, Grad64.Ex.sB, Grad64.Ex.sC], Grad64.premul s.color := by decide
+
+/-- … and every channel is a 16-bit value. -/
+theorem channel_range_f64 (shape spread : UInt8) (m : Aff3 F64) (stops : List (Stop F64))
+    (hok : ∀ s ∈ stops, Grad64.chanOK s.color) (x y : Int) :
+    Grad64.chanOK ((Gradient.init shape spread m stops).1.at (α := F32) x y) :=
+  Grad64.channel_range_f64 shape spread m stops hok x y
+example : ∀ s ∈ [Grad64.Ex.sA, Grad64.Ex.sB, Grad64.Ex.sC], Grad64.chanOK s.color := by decide
+
+/-- Clause "before the first or after the last stop it is the first or last colour", at float64, exactly.
+    The model (as the Go code) compares the offset with `Ranges[0].Offset0` before it looks for a range, and
+    returns `g.Last` when no range contains the offset: `0 <= o < off_first` gives the first stop's colour,
+    `off_last < o` (also `o = +Inf`) the last stop's. -/
+theorem end_colours_f64 (shape spread : UInt8) (m : Aff3 F64) (s0 s1 : Stop F64) (rest : List (Stop F64))
+    (hok : Grad64.StopsOK (s0 :: s1 :: rest)) (x y : Int) :
+    let g := (Gradient.init shape spread m (s0 :: s1 :: rest)).1
+    ((zeroB : F64) ≤ Grad64.offsetAt g x y → Grad64.offsetAt g x y < s0.offset → g.at (α := F32) x y = s0.color) ∧
+    (((s0 :: s1 :: rest).getLast (by simp)).offset < Grad64.offsetAt g x y →
+      g.at (α := F32) x y = ((s0 :: s1 :: rest).getLast (by simp)).color) :=
+  Grad64.end_colours_f64 shape spread m s0 s1 rest hok x y
+-- non-vacuity: offset 0.125 is below the first stop (0.25); with two stops [A, B], offset 0.5 is above the last
+set_option maxRecDepth 100000 in
+example : let g := (Gradient.init 0 0 (Grad64.Ex.mC ⟨0x3FC0000000000000⟩) [Grad64.Ex.sA, Grad64.Ex.sB]).1
+    (zeroB : F64) ≤ Grad64.offsetAt g 0 0 ∧ Grad64.offsetAt g 0 0 < Grad64.Ex.sA.offset ∧
+    g.at (α := F32) 0 0 = Grad64.Ex.sA.color := by decide +kernel
+set_option maxRecDepth 100000 in
+example : let g := (Gradient.init 0 0 (Grad64.Ex.mC ⟨0x3FE0000000000000⟩) [Grad64.Ex.sA, Grad64.Ex.sB]).1
+    Grad64.Ex.sB.offset < Grad64.offsetAt g 0 0 ∧ g.at (α := F32) 0 0 = Grad64.Ex.sB.color := by decide +kernel
+
+/-- Between the first and the last offset (float comparisons) there is no gap: the offset lies in the range
+    `[a.offset, b.offset]` of two CONSECUTIVE stops `a`, `b` (no stop strictly between), `t` and `s = 1 − t`
+    are finite and in `[0,1]`, and every channel is the integer part of the float `s*c0 + t*c1`
+    (`Grad64.lerpF`), which is finite and `< 65536`: the conversion `uint16(…)` never wraps around. -/
+theorem at_inside_f64 (shape spread : UInt8) (m : Aff3 F64) (s0 s1 : Stop F64) (rest : List (Stop F64))
+    (hok : Grad64.StopsOK (s0 :: s1 :: rest)) (x y : Int)
+    (h0 : s0.offset ≤ Grad64.offsetAt (Gradient.init shape spread m (s0 :: s1 :: rest)).1 x y)
+    (h1 : Grad64.offsetAt (Gradient.init shape spread m (s0 :: s1 :: rest)).1 x y ≤
+      ((s0 :: s1 :: rest).getLast (by simp)).offset) :
+    let g := (Gradient.init shape spread m (s0 :: s1 :: rest)).1
+    let o := Grad64.offsetAt g x y
+    ∃ a b, a ∈ s0 :: s1 :: rest ∧ b ∈ s0 :: s1 :: rest ∧ a.offset < b.offset ∧
+      (∀ s ∈ s0 :: s1 :: rest, s = a ∨ s = b ∨ s.offset < a.offset ∨ b.offset < s.offset) ∧
+      a.offset ≤ o ∧ o ≤ b.offset ∧
+      (let t := (o - a.offset) / (b.offset - a.offset)
+       let s := (oneB : F64) - t
+       let c := g.at (α := F32) x y
+       (FloatErr64.Fn t ∧ 0 ≤ FloatMono.val t ∧ FloatMono.val t ≤ 1 ∧
+        FloatErr64.Fn s ∧ 0 ≤ FloatMono.val s ∧ FloatMono.val s ≤ 1) ∧
+       ((c.r : Int) = ⌊FloatMono.val (Grad64.lerpF s t a.color.r b.color.r)⌋ ∧
+          FloatMono.val (Grad64.lerpF s t a.color.r b.color.r) < 65536) ∧
+       ((c.g : Int) = ⌊FloatMono.val (Grad64.lerpF s t a.color.g b.color.g)⌋ ∧
+          FloatMono.val (Grad64.lerpF s t a.color.g b.color.g) < 65536) ∧
+       ((c.b : Int) = ⌊FloatMono.val (Grad64.lerpF s t a.color.b b.color.b)⌋ ∧
+          FloatMono.val (Grad64.lerpF s t a.color.b b.color.b) < 65536) ∧
+       ((c.a : Int) = ⌊FloatMono.val (Grad64.lerpF s t a.color.a b.color.a)⌋ ∧
+          FloatMono.val (Grad64.lerpF s t a.color.a b.color.a) < 65536)) :=
+  Grad64.at_inside_f64 shape spread m s0 s1 rest hok x y h0 h1
+set_option maxRecDepth 100000 in
+example : let g := (Gradient.init 0 0 (Grad64.Ex.mC ⟨0x3FD0000010000000⟩) [Grad64.Ex.sA, Grad64.Ex.sB, Grad64.Ex.sC]).1
+    Grad64.Ex.sA.offset ≤ Grad64.offsetAt g 7 3 ∧ Grad64.offsetAt g 7 3 ≤ Grad64.Ex.sC.offset := by decide +kernel
+
+/-! ### spread modes at float64 -/
+
+/-- Clause "offsets outside [0,1] are handled per spread mode", at float64, all modes at once: for every
+    FINITE `x`, `Clamp` is the specification's `spreadOffset` of the value of `x`, ROUNDED ONCE — `none,
+    outside` gives the marker `-1`, otherwise the result is the correct rounding of the exact offset (inside
+    `[0,1]` and for `pad` that is exact, see below; `⌊x⌋ + 1` in `reflect` is exact whenever `int(x)` is odd). -/
+theorem clamp_spec_f64 (spread : UInt8) (x : F64) (fx : FloatErr64.Fn x) :
+    match spreadOffset (Spread.ofCode spread) (FloatMono.val x) with
+    | none => clamp (α := F32) spread x = Arith.ofInt (-1)
+    | some o => FloatOrder.Rnd o (clamp (α := F32) spread x).nb :=
+  Grad64.clamp_spec_f64 spread x fx
+example : FloatErr64.Fn (⟨0xC004000000000000⟩ : F64) := by decide   -- -2.5
+
+/-- For EVERY float64 `x` (NaN and ±Inf included) and every spread code: if the clamped offset passes `At`'s
+    test `offset >= 0` — i.e. whenever a colour is computed from it — it is finite and `0 ≤ offset ≤ 1`.
+    With `premul_valid_f64`/`channel_range_f64`: a valid premultiplied colour at any pixel. -/
+theorem clamp_range_f64 (spread : UInt8) (x : F64) (h : (zeroB : F64) ≤ clamp (α := F32) spread x) :
+    FloatErr64.Fn (clamp (α := F32) spread x) ∧ 0 ≤ FloatMono.val (clamp (α := F32) spread x) ∧
+    FloatMono.val (clamp (α := F32) spread x) ≤ 1 :=
+  Grad64.clamp_range spread x h
+set_option maxRecDepth 100000 in
+example : (zeroB : F64) ≤ clamp (α := F32) 2 (⟨0xC004000000000000⟩ : F64) := by decide +kernel   -- reflect(-2.5) = 0.5
+
+/-- … and if it fails the test (the marker `-1` of `none`, or a NaN), `At` returns transparent black. -/
+theorem at_no_colour_f64 (g : Gradient F64) (x y : Int) (h : ¬ (zeroB : F64) ≤ Grad64.offsetAt g x y) :
+    g.at (α := F32) x y = ⟨0, 0, 0, 0⟩ :=
+  Grad64.at_no_colour_f64 g x y h
+set_option maxRecDepth 100000 in
+example : ¬ (zeroB : F64) ≤ Grad64.offsetAt
+    (Gradient.init 0 0 (Grad64.Ex.mC ⟨0xC004000000000000⟩) [Grad64.Ex.sA, Grad64.Ex.sB]).1 1 2 := by decide +kernel
+
+/-- inside `[0,1]` (`0 <= x && x <= 1`) the offset is used as it is, bit for bit, for every spread mode -/
+theorem clamp_inside_f64 (spread : UInt8) (x : F64) (h0 : (zeroB : F64) ≤ x) (h1 : x ≤ (oneB : F64)) :
+    clamp (α := F32) spread x = x :=
+  Grad64.clamp_inside_f64 spread x h0 h1
+set_option maxRecDepth 100000 in
+example : (zeroB : F64) ≤ (⟨0x3FE8000000000000⟩ : F64) ∧ (⟨0x3FE8000000000000⟩ : F64) ≤ (oneB : F64) := by
+  decide +kernel   -- 0.75; also -0 (`0x8000000000000000`) passes both tests and is returned as it is
+
+/-- "none gives transparent black": finite raw offset outside `[0,1]`, spread code other than 1, 2, 3 -/
+theorem at_none_outside_f64 (g : Gradient F64) (hs : g.spread ≠ 1 ∧ g.spread ≠ 2 ∧ g.spread ≠ 3) (x y : Int)
+    (fx : FloatErr64.Fn (Grad64.rawOffset g x y))
+    (hout : ¬ (0 ≤ FloatMono.val (Grad64.rawOffset g x y) ∧ FloatMono.val (Grad64.rawOffset g x y) ≤ 1)) :
+    g.at (α := F32) x y = ⟨0, 0, 0, 0⟩ :=
+  Grad64.at_none_outside_f64 g hs x y fx hout
+set_option maxRecDepth 100000 in
+example : let g := (Gradient.init 0 0 (Grad64.Ex.mC ⟨0xC004000000000000⟩) [Grad64.Ex.sA, Grad64.Ex.sB]).1
+    Grad64.rawOffset g 1 2 = ⟨0xC004000000000000⟩ ∧ g.at (α := F32) 1 2 = ⟨0, 0, 0, 0⟩ := by decide +kernel
+example : FloatErr64.Fn (⟨0xC004000000000000⟩ : F64) ∧
+    ¬ (0 ≤ FloatMono.val (⟨0xC004000000000000⟩ : F64) ∧ FloatMono.val (⟨0xC004000000000000⟩ : F64) ≤ 1) := by
+  have f : FloatErr64.Fn (⟨0xC004000000000000⟩ : F64) := by decide
+  have := (FloatMono.lt_iff_val f Grad64.zeroB_fin.1).1 (by decide +kernel)
+  rw [Grad64.zeroB_fin.2] at this
+  exact ⟨f, fun h => absurd h.1 (not_le.2 this)⟩
+
+/-- "pad the end colours": exactly `0`, `x` or `1`, for every non-NaN `x` (±Inf included) -/
+theorem clamp_pad_f64 (x : F64) (hn : FloatMono.NN x) :
+    clamp (α := F32) 1 x = if x < (zeroB : F64) then zeroB else if x ≤ (oneB : F64) then x else oneB :=
+  Grad64.clamp_pad_f64 x hn
+example : FloatMono.NN (⟨0xFFF0000000000000⟩ : F64) := by decide   -- -Inf
+
+/-- "repeat the fractional part": for every finite `x > 1`, of any magnitude, `x − math.Floor(x)` is EXACT.
+    (For negative `x` it is only correctly rounded, `clamp_spec_f64`: `−2^-60 ↦ 1.0`, example below.) -/
+theorem clamp_repeat_exact_f64 (x : F64) (fx : FloatErr64.Fn x) (h1 : 1 < FloatMono.val x) :
+    FloatErr64.Fn (clamp (α := F32) 3 x) ∧ FloatMono.val (clamp (α := F32) 3 x) = frac (FloatMono.val x) :=
+  Grad64.clamp_repeat_exact_f64 x fx h1
+example : FloatErr64.Fn (⟨0x4006000000000000⟩ : F64) ∧ 1 < FloatMono.val (⟨0x4006000000000000⟩ : F64) := by   -- 2.75
+  have f : FloatErr64.Fn (⟨0x4006000000000000⟩ : F64) := by decide
+  have := (FloatMono.lt_iff_val Grad64.oneB_fin.1 f).1 (by decide +kernel)
+  rw [Grad64.oneB_fin.2] at this
+  exact ⟨f, this⟩
+
+/-- `repeat` and `reflect` of `±Inf` (and of a NaN) give a NaN (`Inf − Inf`), hence transparent black
+    (`at_no_colour_f64`); `pad` maps `±Inf` to `1`/`0` (`clamp_pad_f64`). -/
+theorem clamp_nonfinite_f64 (spread : UInt8) (hs : spread = 2 ∨ spread = 3) (x : F64) (hf : ¬ FloatErr64.Fn x) :
+    FloatMono.NaN (clamp (α := F32) spread x) :=
+  Grad64.clamp_nonfinite_f64 spread hs x hf
+example : ¬ FloatErr64.Fn (⟨0x7FF0000000000000⟩ : F64) := by decide   -- +Inf
+
+-- concrete bit patterns: repeat(2.75) = 0.75, repeat(-2^-60) = 1.0 (rounded), reflect(2^53 − 1) = 1.0 (odd:
+-- floor + 1 = 2^53 exact), reflect(2^53 + 2) = 0, reflect(-2.5) = 0.5, reflect(3.0) = 1.0, repeat(+Inf) = NaN,
+-- pad(-Inf) = 0, none(1.5) = -1
+set_option maxRecDepth 100000 in
+example : clamp (α := F32) 3 (⟨0x4006000000000000⟩ : F64) = ⟨0x3FE8000000000000⟩ ∧
+    clamp (α := F32) 3 (⟨0xBC30000000000000⟩ : F64) = ⟨0x3FF0000000000000⟩ ∧
+    clamp (α := F32) 2 (⟨0x433FFFFFFFFFFFFF⟩ : F64) = ⟨0x3FF0000000000000⟩ ∧
+    clamp (α := F32) 2 (⟨0x4340000000000001⟩ : F64) = ⟨0⟩ ∧
+    clamp (α := F32) 2 (⟨0xC004000000000000⟩ : F64) = ⟨0x3FE0000000000000⟩ ∧
+    clamp (α := F32) 2 (⟨0x4008000000000000⟩ : F64) = ⟨0x3FF0000000000000⟩ ∧
+    clamp (α := F32) 3 (⟨0x7FF0000000000000⟩ : F64) = ⟨0xFFF8000000000000⟩ ∧
+    clamp (α := F32) 1 (⟨0xFFF0000000000000⟩ : F64) = ⟨0⟩ ∧
+    clamp (α := F32) 0 (⟨0x3FF8000000000000⟩ : F64) = ⟨0xBFF0000000000000⟩ := by decide +kernel
+
+/-! ### the gradients the float renderer builds -/
+
+/-- The hypotheses above hold for every gradient the float renderer paints with: a successful
+    `initGradient` (render.go) is `Init` of a VALID (`StopsOK`), premultiplied stop list whose offsets are
+    the float32 registers NREG[nBase+k] widened and whose colours are CREG[cBase+k] widened to 16 bits.
+    Hence at every pixel: a valid premultiplied 16-bit colour; exactly stop `k`'s colour where the offset
+    `==` stop `k`'s offset; the first / last colour before / after the first / last stop. -/
+theorem renderer_gradient_f64 (z : Ren.Renderer F32 F64) (rgba : RGBA) (g : Gradient F64)
+    (h : z.initGradient rgba = some g) :
+    let p := decodeGradient rgba
+    let off (k : Nat) : F64 := F64.ofF32 (z.nReg.get6 (p.nBase + (0 + UInt8.ofNat k)))
+    let col (k : Nat) : RGBA64 := Ren.rgba64Of (z.cReg.get6 (p.cBase + (0 + UInt8.ofNat k)))
+    2 ≤ p.nStops.toNat ∧
+    ∀ x y : Int,
+      Grad64.premul (g.at (α := F32) x y) ∧ Grad64.chanOK (g.at (α := F32) x y) ∧
+      (∀ k, k < p.nStops.toNat → Arith.feq (Grad64.offsetAt g x y) (off k) = true → g.at (α := F32) x y = col k) ∧
+      ((zeroB : F64) ≤ Grad64.offsetAt g x y → Grad64.offsetAt g x y < off 0 → g.at (α := F32) x y = col 0) ∧
+      (off (p.nStops.toNat - 1) < Grad64.offsetAt g x y → g.at (α := F32) x y = col (p.nStops.toNat - 1)) :=
+  Grad64.renderer_gradient_f64 z rgba g h
+
+/-- … what `initGradient` returns: `Init` of the decoded shape and spread, the float64 matrix
+    `Grad64.pixMatrix64` and the stops read from the registers. -/
+theorem initGradient_f64 (z : Ren.Renderer F32 F64) (rgba : RGBA) (g : Gradient F64)
+    (h : z.initGradient rgba = some g) :
+    ∃ s0 s1 rest,
+      g = (Gradient.init (decodeGradient rgba).shape (decodeGradient rgba).spread
+            (Grad64.pixMatrix64 z (decodeGradient rgba).nBase) (s0 :: s1 :: rest)).1 ∧
+      (s0 :: s1 :: rest).length = (decodeGradient rgba).nStops.toNat ∧
+      Grad64.StopsOK (s0 :: s1 :: rest) ∧ (∀ s ∈ s0 :: s1 :: rest, Grad64.premul s.color) ∧
+      (∀ k (hk : k < (s0 :: s1 :: rest).length), (s0 :: s1 :: rest)[k] =
+        ⟨F64.ofF32 (z.nReg.get6 ((decodeGradient rgba).nBase + (0 + UInt8.ofNat k))),
+         Ren.rgba64Of (z.cReg.get6 ((decodeGradient rgba).cBase + (0 + UInt8.ofNat k)))⟩) :=
+  Grad64.initGradient_ok z rgba g h
+
+-- non-vacuity: a register state whose two stop offsets are the float32 values 0.25 and 0x3e800001 (one float32
+-- step apart) is accepted; its matrix maps every pixel to the second offset, and `At` returns CREG[11] widened
+set_option maxRecDepth 100000 in
+example : (Grad64.Ex.state.initGradient (encodeGradient 10 10 0 1 2)).isSome = true := by decide +kernel
+set_option maxRecDepth 100000 in
+example : (match Grad64.Ex.state.initGradient (encodeGradient 10 10 0 1 2) with
+    | some g => decide (Arith.feq (Grad64.offsetAt g 5 9) (F64.ofF32 (Grad64.Ex.state.nReg.get6 11)) = true ∧
+        g.at (α := F32) 5 9 = Ren.rgba64Of (Grad64.Ex.state.cReg.get6 11) ∧
+        g.at (α := F32) 5 9 = ⟨0x8080, 0x4040, 0x2020, 0x8080⟩)
+    | none => false) = true := by decide +kernel
+
 /-!
 ## Not proved in this file
 
-* Rounding: everything is about the `ℚ` instance.  At float64 the interpolation `s*c0 + t*c1` is rounded
-  before truncation, `x − floor x` and the matrix products are rounded; no error bound is proved.
+* Rounding: the theorems of the first sections are about the `ℚ` instance.  At float64 (last section) the
+  EXACT part is proved — the stop colours, the end colours, the validity of the colour at every pixel, no
+  wrap-around of `uint16`, `Clamp` as ONE correct rounding of the specification's spread function (exact inside
+  `[0,1]`, for `pad`, and for `repeat` of `x > 1`).  NOT proved: an error bound between the float64 colour
+  strictly inside a range and the exact interpolation (`t = rnd(rnd(o − off0)/width)`, `s = rnd(1 − t)`, two
+  rounded products and a rounded sum precede the truncation; the channel may differ from the `ℚ` value
+  where the exact value is close to an integer); an error bound for the raw offset (the matrix
+  products and sums, and the square root of the radial shape, are rounded; `initGradient`'s matrix is
+  itself computed in float64 from float32 registers).
+* A NaN raw offset (only possible with non-finite matrix entries) is outside the property: `none` gives
+  transparent black, `repeat`/`reflect` a NaN offset and transparent black, but `pad` maps it to offset `0`
+  (Go: `x >= 0` is false, `SpreadPad` returns 0).  The colour is still a valid premultiplied colour.
 * The radial offset is `Wide.sqrt (gx² + gy²)` with `sqrt` an uninterpreted function on `ℚ`: "distance from
   the origin" holds to the extent that this function is the square root.
 * `Spec.Grad.sample` breaks ties at a stop towards the range ENDING there (as `findRange` does); since both
-  neighbouring ranges give the stop's colour there (`at_stop`), this is not observable.
+  neighbouring ranges give the stop's colour there (`at_stop`, `at_stop_f64`), this is not observable.
 -/
 
 end Ivg.Props.C15
@@ -307,5 +611,24 @@ end Ivg.Props.C15
   Ivg.Props.C15.pixMatrixAt_compose,
   Ivg.Props.C15.pix2vb_inverse,
   Ivg.Props.C15.gradient_current_transform,
+  Ivg.Props.C15.at_eq_f64,
+  Ivg.Props.C15.offsetAt_eq_f64,
+  Ivg.Props.C15.rawOffset_eq_f64,
+  Ivg.Props.C15.at_stop_f64,
+  Ivg.Props.C15.at_stop_raw_f64,
+  Ivg.Props.C15.premul_valid_f64,
+  Ivg.Props.C15.channel_range_f64,
+  Ivg.Props.C15.end_colours_f64,
+  Ivg.Props.C15.at_inside_f64,
+  Ivg.Props.C15.clamp_spec_f64,
+  Ivg.Props.C15.clamp_range_f64,
+  Ivg.Props.C15.at_no_colour_f64,
+  Ivg.Props.C15.clamp_inside_f64,
+  Ivg.Props.C15.at_none_outside_f64,
+  Ivg.Props.C15.clamp_pad_f64,
+  Ivg.Props.C15.clamp_repeat_exact_f64,
+  Ivg.Props.C15.clamp_nonfinite_f64,
+  Ivg.Props.C15.renderer_gradient_f64,
+  Ivg.Props.C15.initGradient_f64,
   Ivg.Gen.Tie.renderer_fields_tie,
   Ivg.Gen.Tie.gradient_fields_tie]
